@@ -10,6 +10,13 @@ Observed at the command line.  Three parts:
  (B) discovery: config files (.pyscn.toml, pyproject.toml with / without [tool.pyscn]) at every level between the
      target and a scratch root, target given as directory or file, cwd = target / elsewhere (with its own configs),
      --config file / missing / directory; every file carries a distinct value, so the echo names the file used.
+ (B') the TYPE of the discovered file: at every place of those chains (target directory and each ancestor, the working directory's chain,
+     the directory given to --config, the file given to --config) the configuration file is a regular file or is reached through a
+     symbolic link (relative to a file inside / outside the project, absolute, chain of two links), in the combinations the precedence
+     rules distinguish (link nearer vs regular file further up and the reverse; linked .pyscn.toml beside regular pyproject.toml and the
+     reverse; both linked), each layout from several working directories; a readable file reached through a link IS the file of that
+     place, so the model / spec term is the one of the regular-file layout.  Negative names (dangling link, link to itself, a directory
+     called .pyscn.toml / pyproject.toml) on top of regular files: passed over or refused, the same from every cwd, no crash.
  (C) `pyscn init`: analysis results of sample projects with and without the generated file (differential; TOML
      parsing is not modelled).
 
@@ -1091,7 +1098,11 @@ def main(tier):
         "distinct_nontrivial": len(seen) + kstats.get("key_cases", 0) + kstats.get("explicit_config_cases", 0),
         "rule": "one evaluation = one run of the real pyscn binary (analyze --json / check) on a generated project + config layout; the effective "
                 "value is read from the report's config echo (check: the printed limit) and from the surviving items, and compared with eff / "
-                "spec_resolve and with the Coq model; the keys without a flag are judged under a discovered file and under an explicit --config file "
+                "spec_resolve and with the Coq model; every discovery place holds its file as a regular file and through symbolic links (relative in / "
+                "out of the project, absolute, chained), alone, nearer / further than a regular file, beside the other kind, under --config "
+                "<link> and --config <directory (through a link)>, from several working directories, decided like the regular-file layout; "
+                "names that are no configuration file (dangling link, self link, directory) must be passed over or refused, independent of "
+                "the cwd, without a crash; the keys without a flag are judged under a discovered file and under an explicit --config file "
                 "(alone, against a discovered file with another value, and not mentioning the key while the discovered file does: the explicit "
                 "file is the one in force for every key, observed by the echo, by a refusal, and for [output] format / directory by the extension "
                 "/ place of the report written); distinct = distinct (option, flag value, file value, file style) or discovery layout or "
